@@ -10,27 +10,27 @@ claimed = {
  "C01": dict(design="8 C01", text="Proof: stream framing against an explicit ghost model of the byte stream: conn/connipc Send hand WriteTo exactly [be64(len(H)+len(B)) (IPC: 0x01 first), H, B]; Recv decodes the length from exactly the next 8 stream bytes, rejects negative/oversize before allocating, returns a body of exactly that many following stream bytes and consumes exactly 8(+1)+len; limit equal to size is accepted; WebSocket/inproc Send deliver header||body as one payload into a fresh buffer; the API Send/Recv copy the bytes; Dup/MakeUnique preserve contents; big-endian round-trip lemma.",
              note="net.Buffers.WriteTo / io.ReadFull / binary.Read / websocket contracts and NewMessage (sync.Pool) are trusted; concurrent writers on one connection and kernel/TLS internals are outside."),
  "C13": dict(design="8 C13", text="Proof (partial): the id allocator returns a non-zero 31-bit id that was not in use and records it; addPipe calls the protocol's AddPipe only with the pipe lock held, not closing, not yet added; on refusal or close-during-Attaching the pipe is not marked added, the lock is released and (refusal) close is scheduled; Attached and dialer notification only after added; Close runs remPipe iff added, under the pipe lock, and notifies the dialer iff there is one; only addPipe writes `added`.",
-             note="Pipe id release on non-attached paths (F7) and accessor/option contracts are not yet stated."),
+             note="A pipe that never got attached releases its id and list entry in Close (defect F7 found and fixed); accessor/option contracts of Pipe are not yet stated."),
  "C15": dict(design="8 C15", text="Proof: the handshake writes 00 'S' 'P' 00 <proto big-endian> 00 00 and returns nil only if the eight bytes it read are 00 'S' 'P' 00 <expected peer> 00 00 (so every single-byte deviation is refused), consuming exactly eight bytes, and never reports the listener-closed error for a peer failure; message frames as in C01 (length covers header+body, IPC prefix 0x01).",
-             note="binary.Write field order/endianness trusted; WebSocket subprotocol strings not yet under contract."),
+             note="binary.Write field order/endianness trusted. WebSocket: the dialer offers exactly <peer>.sp.nanomsg.org, the listener registers exactly <self>.sp.nanomsg.org and upgrades only when the client offered it, frames are binary; gorilla/websocket itself is trusted."),
  "C16": dict(design="8 C16", text="Proof: no index/slice/makeslice panic in any protocol receiver, in transport Recv or the handshake for any received bytes (unbounded symbolic input); oversize or negative length => ErrTooLong with no allocation and no further read; the limit is compared before NewMessage is called.",
-             note="Scheduling/fairness clauses outside; ws read-limit plumbing not yet under contract."),
+             note="Scheduling/fairness clauses outside. The configured receive limit reaches every new connection: tcp/tls/ipc dialers and listeners pass exactly their maxRecvSize to the conn, ws sets the read limit to it, and NewDialer/NewListener hand the socket's limit to the endpoint unless the caller supplied one."),
  "C18": dict(design="8 C18", text="Proof (partial): at every blocking API select of the raw sockets and the REP/RESPONDENT contexts the wait channel is the always-ready channel for best effort, time.After(exactly the configured deadline) for a positive deadline, and the nil channel otherwise; the timeout case maps to the timeout error (or silent drop for best effort); REQ timers are armed with exactly the configured values and only when positive; fail-no-peers: PUSH checks before blocking and waits on the no-peers signal, which RemovePipe closes under the lock when the last pipe leaves; REQ cancels exactly the contexts that asked for fail-no-peers; REP Recv clears its waiting flag on every exit.",
              note="Timer library contract trusted; liveness/fairness clauses outside."),
  "C19": dict(design="8 C19", text="Proof: for every option name (arbitrary string) and every dynamic value (any type tag, any payload) each protocol socket/context SetOption returns bad-option for names outside its table, bad-value for a wrong type or out-of-range value with the state unchanged, and otherwise stores exactly the value; GetOption returns the stored field or bad-option; no make(chan, n<0) or failed type assertion; core SetOption falls through protocol -> socket with the same three-way contract and ignores endpoint answers; unsupported operations return the designated error and modify nothing; Device validates before spawning forwarders; receivers never leave their loop on a queue resize (one known finding: XBUS). Three defects found and fixed.",
-             note="The option table (tools/gen_option_contracts.py) is the specification; inheritance by new contexts/endpoints not yet stated."),
+             note="The option table (tools/gen_option_contracts.py) is the specification. New contexts (REQ, REP, SUB, SURVEYOR, RESPONDENT) start from the socket's current settings; new dialers/listeners inherit the receive limit and the reconnect settings; per-pipe send queues are created with exactly WriteQLen; an unsubscribe keeps the configured queue depth. Resize paths never double-close their notification channel (close permissions)."),
  "C02": dict(design="8 C02", text="Proof (partial): PAIR admits a peer only when it has none, a refused pipe leaves the peer untouched and spawns nothing, RemovePipe evicts the peer only if it is the pipe being removed (so removing a refused pipe cannot disturb the conversation); core never marks a refused pipe added; PUSH: a queued message always wakes the scheduler (Signal on every successful enqueue), the scheduler hands each dequeued message to exactly one ready pipe under the lock, a pipe is re-queued only after its SendMsg succeeded and while open, ownership of every message is affine along these paths; the send queue must have capacity >= 1 for the scheduler to see it (one known finding: WriteQLen 0).",
              note="Delivery multiset/order across goroutines and liveness are outside."),
  "C10": dict(design="8 C10", text="Proof (partial): every raw socket Close returns the closed error and changes nothing when already closed, otherwise sets the flag and closes the close channel; the handshaker closes a connection whose handshake completed after Close, and queues no live connection after Close; REQ cancelSend removes exactly the cancelled context from the send queue (order and all other entries preserved); pipe Close notifies the protocol iff it was added and the dialer iff there is one; dialer Close stops the redial timer and marks it closed; every RecvMsg that reports success returns a message.",
-             note="Goroutine/timer/address leaks, promptness and wake-on-close completeness are outside or not yet stated."),
+             note="Also proved: no double close of any close/resize channel in protocols and transports (close permissions, DESIGN 13.2a); conn.Close releases the connection whatever the handshake state (defect F15 found and fixed); a pipe that was never attached releases its id (F7 fixed); an inproc listener removes only its own address registration. Goroutine/timer leaks in general, promptness and wake-on-close completeness are outside."),
  "C14": dict(design="8 C14", text="Proof (partial): a closed dialer returns before the transport dial; a failed attempt without redial schedules nothing; with redial the timer is armed with exactly the current delay, the next delay never exceeds the configured maximum and is unchanged when no maximum is set; the delay is reset to the minimum on Dial and on a successful attach; pipe loss re-arms with the current delay; success arms no timer; a protocol refusal still closes the pipe so that the dialer is told.",
              note="Floats as reals; real-time spacing and persistence are outside."),
  "C20": dict(design="8 C20", text="Proof: printMsg, modelling the buffered writer as a token log: raw writes exactly the body; ascii writes each byte itself iff it is printable ASCII (0x20..0x7E) and '.' otherwise, then one newline; quoted writes per byte the escape for \\n \\r \\\\ \\\" , the byte itself if printable, a \\xHH escape otherwise (lemma: the tokens decode back to the byte and the first character determines the token length); msgpack writes bin8/bin16/bin32 by length class with a big-endian length equal to the body length (all lengths, incl. 255/256/65535/65536), then the body; the send loops send exactly sendData, count times; an explicit --count is not overridden by --send-interval. One defect found and fixed (Latin-1 bytes in ascii mode).",
              note="bufio.Writer token model and strconv.IsPrint table (evaluated from the real library at run time) are assumptions; optopia parsing and Run's validation are outside."),
  "C03": dict(design="8 C03", text="Proof (partial): the REQ receiver matches replies on the exact 32-bit id read from the message (no normalisation), only against the id->context map, forgets the id on the first match and stores the reply in that context only; short replies are dropped; cancel forgets the outstanding id and clears request/reply; every access to REQ state happens under the socket lock.",
-             note="The full cross-call monitor invariant (I1-I5 of DESIGN) is not yet proved; id freshness assumed."),
+             note="The full cross-call monitor invariant (I1-I5 of DESIGN) is not yet proved; id freshness assumed. A Recv canceled by a newer Send leaves the new request's state alone (defect F14 found, replayed and fixed)."),
  "C04": dict(design="8 C04", text="Proof (partial): each transmission hands exactly the retained request (pointer-equal, one extra reference) to one pipe and records it as lastPipe; the retry timer is armed with exactly the retry time and only when it is positive; the timer callback uses the id captured when it was armed; pipe loss re-queues via resendMessage when retries are enabled and cancels otherwise; resendMessage acts only if the id is current, the request retained and not already queued.",
-             note="Real-time and liveness clauses are outside; stale-timer accounting (F8) not yet modelled."),
+             note="Real-time and liveness clauses are outside. At most one retry timer is armed per context: the pending one is stopped before a new one is armed (defect F8 found and fixed)."),
  "C05": dict(design="8 C05", text="Proof: REP/RESPONDENT RecvMsg stores a private copy (different array, equal bytes) of the request header and the originating pipe in the context; SendMsg sends only on that pipe's queue with exactly that header, clears the state, and returns the protocol-state error when nothing is pending; a fresh RESPONDENT context starts with nothing pending; raw XREP/XRESPONDENT route by the first header word to exactly that pipe, strip it, drop unknown/short, restore the header on timeout.",
              note="Device-chain composition is a meta-argument over these per-hop contracts."),
  "C06": dict(design="8 C06", text="Proof: matches(m) <=> some subscription is a prefix of the body (loop invariant, unbounded); the SUB receiver enqueues to a context iff it matches; after unsubscribe a queued message is kept iff it still matches; RecvMsg returns an owned, unshared message; the PUB loop offers every message to every pipe (no early exit).",
@@ -41,10 +41,10 @@ claimed = {
              note="Topology-level induction is not machine-checked."),
  "C09": dict(design="8 C09", text="Proof: deliver-site / drop-site assertions and loop invariants on the hop-counting receiver are discharged for every TTL 1..255, every word count and every byte value (no bound). Under contract: REP, XREP, RESPONDENT, XRESPONDENT (word-count receivers), XPAIR1 and XSTAR (hop-byte receivers).",
              note="Trusts the generator, solvers, append/slice model, interface contract of ProtocolPipe.RecvMsg; struct invariant 1<=ttl<=255 is proved at every Unlock of the package."),
- "C11": dict(design="8 C11", text="Proof (partial): for every field annotated guarded_by/immutable/atomic in the contract files, every access in every function of core, transports and protocols is proved to happen with the lock held (data-race freedom for declared fields); lock order levels and no blocking operation under a lock. 27 genuine unsynchronised accesses of the pinned tree are listed as known findings.",
+ "C11": dict(design="8 C11", text="Proof (partial): for every field annotated guarded_by/immutable/atomic in the contract files, every access in every function of core, transports and protocols is proved to happen with the lock held (data-race freedom for declared fields); lock order levels and no blocking operation under a lock. 27 genuine unsynchronised accesses of the pinned tree were found by this check and repaired in six fix: commits.",
              note="Foreign-guarded fields (guarded by a lock in another object) are checked against any held lock of that type (ownership assumption); fields marked racy are outside; linearizability and scheduler-dependent deadlocks are outside."),
  "C17": dict(design="8 C17", text="Proof: affine ownership of *Message checked on every path of every function in core, transports and protocols: no use, release, channel send, goroutine hand-off or store of a message the code does not own; Send-like methods leave the message with the caller (own>=1, Body unchanged) on every error return; Recv-like methods return an owned message; loop iterations do not consume references they did not acquire. Interface Send contracts are proved for every implementation (subtype obligations).",
-             note="NewMessage's contract is trusted (sync.Pool); values loaded from structures are borrowed (double release through two loads of one field is not seen); dropping a message without Free is allowed; REQ/SURVEYOR body-intact-on-error clauses are not claimed (listed in evidence)."),
+             note="NewMessage's contract is trusted (sync.Pool); values loaded from structures are borrowed (double release through two loads of one field is not seen); dropping a message without Free is allowed; the REQ body-intact-on-error clause and REQ Recv uniqueness are not claimed (listed in evidence); SURVEYOR Send with a shared message was a defect (fixed)."),
  "C12": dict(design="8 C12", text="Proof: on every path of every function in core, transports and protocols each mutex is released exactly once before return (path-sensitive, defer-aware), never re-locked while held, never unlocked while free, cond.Wait only with its lock. Two defects found by this check were repaired (fix: commits).",
              note="Lock identity is the address term of the mutex field; calls to functions without a `holds/acquires/releases` contract are assumed lock-neutral (which is exactly what this sweep proves for each of them)."),
 }
@@ -80,7 +80,7 @@ m = {
  },
  "engines": [{"name":"govc","path":"/verif/govc","serves_properties":sorted(claimed),"kind_free_text":"verification-condition generator over go/ssa + SMT (z3 4.8.12, z3 5.1.0, cvc5 1.0); contracts as //@ comments in contracts_verif.go"}],
  "checks": checks,
- "notes": "Known findings: /verif/known_findings.txt. Fix commits in /repo start with 'fix:'. See DESIGN.md.",
+ "notes": "Known findings: /verif/known_findings.txt. Fix commits in /repo start with 'fix:'. See DESIGN.md. Thorough tier = quick tier with 60 s solver budgets + independent re-solve of every discharged obligation by the other installed solvers (disagreement breaks the check) + adequacy: every seeded change / re-introduced defect recorded for the property is applied to a scratch copy of the tree (never /repo) and must be reported.",
  "not_applicable": na,
 }
 json.dump(m, open('/verif/MANIFEST.json','w'), indent=1)
